@@ -696,6 +696,51 @@ def h_send_in_close_window(ctx, kinds):
              % (len(new), len(want), refused), new == want)]
 
 
+def h_second_stack_logs_in(ctx):
+    """two stacks in one process, both built the default way (two accounts, or a fresh stack next to the old one): stack B logs in -- its
+    noise layer switches ITS framing off for the prologue and back on -- on one thread, pre-empted after k of its lines inside the noise
+    layer (solver's choice), while a sender uses logged-in stack A on another thread.  A's socket bytes stay whole frames that the strict
+    peer cuts and decrypts"""
+    import sys
+    from checks import c16, preempt
+    from dissononce.processing.impl.cipherstate import CipherState
+    from dissononce.cipher.aesgcm import AESGCMCipher
+    tr = Tracer()
+    st, insts, disp, iq, key = build(tr, True)
+    stB, wB, netB, dispB, appB, iqB, iqmodB = c16.build(True, True)
+    k = ctx.choice("login_preempted_after_lines", list(range(0, 30)))
+    sender = ctx.choice("sender", ["app", "keepalive", "coder"])
+    appB.connect()
+
+    def login():
+        dispB.state = "up"
+        netB.onConnected()
+        c16.run_loop(stB)
+
+    def send():
+        do_send(sender, insts, iq, 7)
+    fname = sys.modules[type(insts[2]).__module__].__file__
+    r = preempt.run_preempted(login, send, fname, k)
+    peer = CipherState(AESGCMCipher())
+    peer.initialize_key(key)
+    stream = b"".join(disp.out)
+    frames, ok, i = 0, True, 0
+    try:
+        while i < len(stream):
+            n = int.from_bytes(stream[i:i + 3], "big")
+            ct = stream[i + 3:i + 3 + n]
+            if len(ct) != n:
+                ok = False
+                break
+            peer.decrypt_with_ad(b"", ct)
+            frames += 1
+            i += 3 + n
+    except Exception:
+        ok = False
+    return [("both threads return (stuck %s, errors %s)" % (r["stuck"], {i_: repr(e)[:80] for i_, e in r["errors"].items()}), not r["stuck"] and not r["errors"]),
+            ("stack A's socket bytes are whole frames the peer decrypts although stack B logs in meanwhile (%d frame(s), %d bytes)" % (frames, len(stream)), ok and frames == 1)]
+
+
 def h_socket_wire(ctx, n):
     """below the network layer: the real asyncore dispatcher over a socket double whose sends accept all, half or nothing of the data
     (back-pressure, solver's choice): the peer of each connection receives what was written to it in order -- a later write never overtakes
@@ -753,6 +798,7 @@ def h_big_frames(ctx):
 def cases(tier):
     cs = [dict(name="after-peer-drop[app+keepalive]", fn=h_after_peer_drop, args=(("app", "keepalive"),)),
           dict(name="big-frames", fn=h_big_frames, keep_samples=8),
+          dict(name="second-stack-logs-in[one pre-emption]", fn=h_second_stack_logs_in, keep_samples=40),
           dict(name="socket-wire[asyncore dispatcher under back-pressure,len<=6]", fn=h_socket_wire, args=(6,), max_paths=200000, timeout_s=900, weight=30),
           dict(name="send-in-close-window[app+keepalive]", fn=h_send_in_close_window, args=(("app", "keepalive"),)),
           dict(name="login-wire[first login]", fn=h_login_wire, args=(False,)), dict(name="login-wire[second login on the same stack]", fn=h_login_wire, args=(True,)),
